@@ -25,6 +25,7 @@ func checkC10(ctx *Ctx, r *Report) {
 	c10OverridesForwarded(ctx, r)
 	c10EnumValueDefaultAgreement(ctx, r)
 	c10PythonMutableDefaults(ctx, r)
+	c10ThirdRound(ctx, r)
 	inProgressRestored(ctx, r, []string{"internal/jennies/golang/rawtypes.go", "internal/jennies/java/types.go"}, 2)
 }
 
@@ -1101,4 +1102,132 @@ func c10PythonMutableDefaults(ctx *Ctx, r *Report) {
 	})
 	r.Count("literal defaults written into Python signatures", n)
 	r.Floor("literal defaults written into Python signatures", 1)
+}
+
+// ---------------------------------------------------------------------------
+// Rules added after the third generation of seeds.
+
+// c10ThirdRound: (a) Python: a type that is not a reference and declares a default yields that default, whatever its
+// kind — the shortcut at the top of defaultValueForTypeRec may only be conditioned on IsRef and on the default being
+// set (a kind filter sends the other kinds, unions first, to "empty value of the first branch"); (b) Go: a declared list
+// default is a list literal of the field's type, never `nil` (json: null vs []); (c) the scalar that replaces a union of
+// same-kind scalars is a fresh ast.NewScalar carrying the union's default, not a copy of one branch (a constant branch
+// listed first would make the whole field a constant, which the Go constructor assigns before any default).
+func c10ThirdRound(ctx *Ctx, r *Report) {
+	// (a)
+	if fn := ctx.LookupFunc("internal/jennies/python", "defaultValueForTypeRec"); fn != nil {
+		fd, p := ctx.DeclOf(fn)
+		info := p.TypesInfo
+		ka := newKindAnalysis(ctx)
+		defaultF := astField(ctx, "Type", "Default")
+		n := 0
+		for _, st := range fd.Body.List {
+			is, ok := st.(*ast.IfStmt)
+			if !ok || len(is.Body.List) != 1 {
+				continue
+			}
+			rs, ok := is.Body.List[0].(*ast.ReturnStmt)
+			if !ok || len(rs.Results) != 1 || fieldOf(info, rs.Results[0]) != defaultF {
+				continue
+			}
+			n++
+			filter := ""
+			ast.Inspect(is.Cond, func(q ast.Node) bool {
+				if c, ok := q.(*ast.CallExpr); ok {
+					if f := callee(info, c); f != nil {
+						if f.Name() == "IsRef" {
+							return true
+						}
+						if ka.predicates[f.Origin()] != "" || f.Name() == "IsAnyOf" {
+							filter = exprString(c)
+						}
+					}
+				}
+				return true
+			})
+			r.Check(filter == "", "flow/declared-default-first", "python.defaultValueForTypeRec returns the declared default", is.Pos(), "for every kind but references",
+				fmt.Sprintf("python.defaultValueForTypeRec returns the declared default only under `%s`: the other kinds (unions, maps, …) fall through to the empty value of their first branch — `string | int64 | *\"uu\"` is constructed as \"\" while Go constructs \"uu\"", filter))
+		}
+		r.Count("declared-default shortcuts of the python jenny", n)
+		r.Floor("declared-default shortcuts of the python jenny", 1)
+	} else {
+		r.Undecided("anchor lost: python.defaultValueForTypeRec")
+	}
+	// (b)
+	if fn := ctx.LookupMethod("internal/jennies/golang", "RawTypes", "formatDefaultValue"); fn != nil {
+		fd, p := ctx.DeclOf(fn)
+		info := p.TypesInfo
+		n := 0
+		ast.Inspect(fd.Body, func(m ast.Node) bool {
+			rs, ok := m.(*ast.ReturnStmt)
+			if !ok || len(rs.Results) != 1 {
+				return true
+			}
+			n++
+			isNil := false
+			if tv, ok := info.Types[rs.Results[0]]; ok && tv.Value != nil && tv.Value.ExactString() == `"nil"` {
+				isNil = true
+			}
+			r.Check(!isNil, "skeleton/go-default-not-nil", fmt.Sprintf("golang.RawTypes.formatDefaultValue result #%d", n), rs.Pos(), "not the literal nil",
+				"formatDefaultValue renders a declared default as `nil`: encoding/json writes null where the schema says [] (and Python writes [])")
+			return true
+		})
+		r.Count("results of golang.formatDefaultValue", n)
+		r.Floor("results of golang.formatDefaultValue", 2)
+	} else {
+		r.Undecided("anchor lost: golang.RawTypes.formatDefaultValue")
+	}
+	// (c)
+	if fn := ctx.LookupMethod("internal/ast/compiler", "DisjunctionToType", "processDisjunction"); fn != nil {
+		fd, p := ctx.DeclOf(fn)
+		info := p.TypesInfo
+		newScalar := ctx.LookupFunc("internal/ast", "NewScalar")
+		n := 0
+		ast.Inspect(fd.Body, func(m ast.Node) bool {
+			is, ok := m.(*ast.IfStmt)
+			if !ok || !strings.Contains(exprString(is.Cond), "hasOnlySingleTypeScalars") {
+				return true
+			}
+			defs := map[types.Object]ast.Expr{}
+			ast.Inspect(is.Body, func(q ast.Node) bool {
+				if as, ok := q.(*ast.AssignStmt); ok && as.Tok == token.DEFINE && len(as.Lhs) == 1 && len(as.Rhs) == 1 {
+					if id, ok := as.Lhs[0].(*ast.Ident); ok {
+						defs[info.Defs[id]] = as.Rhs[0]
+					}
+				}
+				return true
+			})
+			ast.Inspect(is.Body, func(q ast.Node) bool {
+				rs, ok := q.(*ast.ReturnStmt)
+				if !ok || len(rs.Results) != 2 || !isNilIdent(info, rs.Results[1]) {
+					return true
+				}
+				n++
+				src := rs.Results[0]
+				if id, ok := ast.Unparen(src).(*ast.Ident); ok {
+					if d, ok := defs[objOf(info, id)]; ok {
+						src = d
+					}
+				}
+				fresh := false
+				hasValue := false
+				if c, ok := ast.Unparen(src).(*ast.CallExpr); ok && callee(info, c) == newScalar {
+					fresh = true
+					for _, a := range c.Args {
+						if strings.Contains(exprString(a), "ast.Value(") {
+							hasValue = true
+						}
+					}
+				}
+				r.Check(fresh && !hasValue, "traverse/collapsed-scalar-fresh", "DisjunctionToType same-kind scalars replacement", rs.Pos(), "a fresh scalar of that kind carrying the union's default, without a constant value",
+					fmt.Sprintf("the union of same-kind scalars is replaced by %s, not by a fresh ast.NewScalar: a copy of a branch inherits that branch's constant value — `\"fit\" | string | *\"auto\"` becomes the constant \"fit\" in Go while Python constructs \"auto\"", exprString(src)))
+				return true
+			})
+			return true
+		})
+		r.Count("same-kind scalar collapses in DisjunctionToType", n)
+		r.Floor("same-kind scalar collapses in DisjunctionToType", 1)
+	} else {
+		r.Undecided("anchor lost: DisjunctionToType.processDisjunction")
+	}
 }
